@@ -218,6 +218,32 @@ def faulting_last_step(sess):
     return None
 
 
+def reordering_reset(sess):
+    """after the history (nothing here reaches the model; seeded change C07-r4m2).  TURN-BASED manager: one more reset in
+    which the simulation re-orders its agents dictionary IN PLACE (the dictionary the manager shares with it), e.g. a
+    simulation that shuffles its roster per episode.  "Turns go round in the fixed listing order": the listing the
+    manager sees is the one the simulation has once it has been reset, so the episode starts with the first learning
+    agent of the dictionary as it is NOW.  Returns a description of what went wrong, or None."""
+    if sess.kind != 1 or sess.dead or len(sess.ops) % 3 != 0 or sess.script.get("scribble"):
+        return None
+    sim = sess.sim
+    if sum(1 for x in sim.learning if x) < 2:
+        return None
+    sim.reorder_at_next_reset = True
+    with scripted(sess.tape):
+        st, val = guarded(lambda: sess.mgr.reset())
+    sim.reorder_at_next_reset = False
+    sess.dead = True
+    if st != "ok" or not isinstance(val, dict) or len(val) != 1:
+        return None                       # (a reset that fails is judged by the history stream, not here)
+    first = next((k for k in sim.agents if sim.learning[sim.idx[k]]), None)
+    got = next(iter(val))
+    if first is not None and got != first:
+        return ("after a reset in which the simulation re-ordered its agents dictionary in place the episode starts with "
+                "agent %d, the first learning agent of the listing is %d" % (sim.idx[got], sim.idx[first]))
+    return None
+
+
 def run_concrete(kind, shuffle, script, tape, ops):
     s = Session(kind, shuffle, script, tape)
     for op in ops:
